@@ -767,3 +767,79 @@ def choice_values(cfg, at, name, cond_template, entry_only=False):
             return (sorted(norm(v) for v in values_on(cfg, at, name, t, pol, entry_only) if isinstance(v, ast.AST)),
                     sorted(norm(v) for v in values_on(cfg, at, name, t, other, entry_only) if isinstance(v, ast.AST)))
     return None
+
+
+def _terminates(body):
+    if not body:
+        return False
+    last = body[-1]
+    if isinstance(last, (ast.Return, ast.Raise, ast.Continue, ast.Break)):
+        return True
+    if isinstance(last, ast.If):
+        return _terminates(last.body) and _terminates(last.orelse)
+    if isinstance(last, ast.Try):
+        main = last.orelse if last.orelse else last.body
+        return _terminates(main) and all(_terminates(h.body) for h in last.handlers)
+    if isinstance(last, ast.With):
+        return _terminates(last.body)
+    return False
+
+
+def dispatch_chain(stmts):
+    """the dispatch written as ``if a: .. elif b: .. else: ..`` or as a sequence of
+    ``if a: <terminating body>`` statements (or a mix): -> (list of If nodes in order, the
+    statements of the final else / fall-through)"""
+    chain = []
+    i = 0
+    while i < len(stmts) and not isinstance(stmts[i], ast.If):
+        i += 1
+    if i == len(stmts):
+        return [], list(stmts)
+    cont = list(stmts[i:])
+    while cont and isinstance(cont[0], ast.If):
+        cur = cont[0]
+        rest = cont[1:]
+        chain.append(cur)
+        if cur.orelse:
+            cont = list(cur.orelse) + ([] if _terminates(cur.orelse) else rest)
+        elif _terminates(cur.body):
+            cont = rest
+        else:
+            return chain, rest
+    return chain, cont
+
+
+def repetition_count(cfg, unit, loop):
+    """the number of iterations of a counted repetition, as an expression: ``for _ in range(E)``
+    or ``c = E; while c > 0: ..; c -= 1`` (also ``while c: `` / ``c >= 1``).  -> (E, counter name
+    or None) or None"""
+    if isinstance(loop, ast.For):
+        it = loop.iter
+        if isinstance(it, ast.Call) and is_name(it.func, 'range') and len(it.args) == 1 and not it.keywords:
+            return it.args[0], None
+        return None
+    if isinstance(loop, ast.While):
+        t = loop.test
+        c = None
+        if isinstance(t, ast.Name):
+            c = t.id
+        elif isinstance(t, ast.Compare) and len(t.ops) == 1 and is_name(t.left) and isinstance(t.comparators[0], ast.Constant):
+            k = t.comparators[0].value
+            if isinstance(t.ops[0], ast.Gt) and k == 0 or isinstance(t.ops[0], ast.GtE) and k == 1 \
+                    or isinstance(t.ops[0], ast.NotEq) and k == 0:
+                c = t.left.id
+        if c is None:
+            return None
+        decs = [n for n in ast.walk(loop) if isinstance(n, ast.AugAssign) and is_name(n.target, c)]
+        if len(decs) != 1 or not isinstance(decs[0].op, ast.Sub) or not isinstance(decs[0].value, ast.Constant) \
+                or decs[0].value.value != 1 or decs[0] not in loop.body:
+            return None
+        others = [n for n in ast.walk(loop) if isinstance(n, ast.Name) and n.id == c and isinstance(n.ctx, ast.Store)
+                  and n is not decs[0].target]
+        if others:
+            return None
+        node = cfg.node_of(loop)
+        defs = [(dn, v) for dn, v in cfg.reaching_defs(node, c, split=False) if node not in dn.loop_stack]
+        if len(defs) == 1 and isinstance(defs[0][1], ast.AST):
+            return defs[0][1], c
+    return None
